@@ -151,7 +151,11 @@ def random_plan(seed, idx):
             if r.random() < 0.15:
                 i2 = ids(0)
                 extra = [["sub", i2[0], i2[1], i2[2], r.choice([1, 2]), r.choice([0, 1, 2, INF_TTL]), 0, [ep(p)]]]
-            b.sub(p, ids(ins), eg, r.choice([1, 1, 2, 3, INF_TTL]), counter, ch, eps, extra)
+            second = None
+            if r.random() < 0.08:
+                i3 = ids(0)  # a second SD message in the same datagram
+                second = [["sub", i3[0], i3[1], i3[2], r.choice([1, 2]), r.choice([0, 1, 3, INF_TTL]), r.choice([0, 1]), [ep(p)]]]
+            b.sub(p, ids(ins), eg, r.choice([1, 1, 2, 3, INF_TTL]), counter, ch, eps, extra, second=second)
         elif k < 0.55:
             b.sub(p, ids(ins), eg, 0, counter, ch, eps)
         elif k < 0.70:
